@@ -2,6 +2,7 @@ package main
 
 import (
 	"fmt"
+	"go/constant"
 	"go/token"
 	"go/types"
 	"strings"
@@ -15,7 +16,7 @@ func propC05() *Property {
 	return &Property{
 		ID:          "C05",
 		NeedCG:      true,
-		Decides:     "choke-point structure: R05.1 every write to an underlay's network connection is gated by the send-cipher initialisation (stream) / uses a cipher obtained from an authenticated decrypt (packet); R05.2 the stream send cipher derives only from the receive cipher, which is set only from a successful Registry.Discover (server) or the client's own key; R05.3 on the packet server path no segment is returned unless a decrypt succeeded, and segment/session ciphers are only ever copies of authenticated ciphers; R05.4 server sessions are created only by onOpenSessionRequest, called only from the event loops, after validateNewServerSessionSegment, and readySessions is fed only there; R05.5 the failure branches (crypto/replay error, undecryptable datagram) call nothing that can write to the connection.; R05.8 every SetUsers call publishes the new users: a retired credential does not survive a reload (shared with R07.8); R05.9 every datagram and every first stream segment is looked up in (and recorded by) the replay cache before any decryption, and a replay yields no segment (shared with R06.1, R06.2): observed traffic re-sent by a party without a credential creates nothing",
+		Decides:     "choke-point structure: R05.1 every write to an underlay's network connection is gated by the send-cipher initialisation (stream) / uses a cipher obtained from an authenticated decrypt (packet); R05.2 the stream send cipher derives only from the receive cipher, which is set only from a successful Registry.Discover (server) or the client's own key; R05.3 on the packet server path no segment is returned unless a decrypt succeeded, and segment/session ciphers are only ever copies of authenticated ciphers; R05.4 server sessions are created only by onOpenSessionRequest, called only from the event loops, after validateNewServerSessionSegment, and readySessions is fed only there; R05.5 the failure branches (crypto/replay error, undecryptable datagram) call nothing that can write to the connection.; R05.8 every SetUsers call publishes the new users: a retired credential does not survive a reload (shared with R07.8); R05.9 every datagram and every first stream segment is looked up in (and recorded by) the replay cache before any decryption, and a replay yields no segment (shared with R06.1, R06.2): observed traffic re-sent by a party without a credential creates nothing; R05.11 a user entry with an empty password never becomes a credential (its key would be a function of the public name alone)",
 		NotDecided:  "timing side channels, the drain's length distribution, TCP-level behaviour (RST vs FIN), strength of the AEAD itself.",
 		Assumptions: []string{"VTA call graph is sound for the interface calls on the analysed paths"},
 		Rules: []Rule{
@@ -27,6 +28,7 @@ func propC05() *Property {
 			{ID: "R05.7", Floor: 1, Text: "a TCP first segment authenticated against a user generation is accepted only if that generation is still the published one after discovery (a credential removed by a completed reload no longer opens a session)", Run: func(c *RC) { ruleRecheckGeneration(c) }},
 			{ID: "R05.8", Floor: 2, Text: "every SetUsers call publishes the new users: a retired credential does not survive a reload (shared with R07.8)", Run: ruleSetUsersPublishes},
 			{ID: "R05.10", Floor: 2, Text: "the datagram parsers accept a datagram only at exactly its announced size", Run: r05_10},
+			{ID: "R05.11", Floor: 1, Text: "no server credential is derived from an empty secret: in the user registry, HashPassword(user password, user name) is unreachable when the password is empty (tested in the function or at every call of the helper)", Run: r05_11},
 			{ID: "R05.9", Floor: 4, Text: "every datagram and every first stream segment is looked up in (and recorded by) the replay cache before any decryption, and a replay yields no segment (shared with R06.1, R06.2): observed traffic re-sent by a party without a credential creates nothing", Run: func(c *RC) { r06_1(c); r06_2(c) }},
 			{ID: "R05.5", Floor: 3, Text: "failure branches (stream: readOneSegment error in RunEventLoop; packet: undecryptable datagram, replay) call nothing that may write to the underlay connection before the next read", Run: r05_5},
 		},
@@ -1198,7 +1200,6 @@ func r05_6(c *RC) {
 	}
 }
 
-
 // r05_10: a datagram is accepted only at exactly its announced size. The two
 // packet parsers return a segment only on a path that passed the test
 // "announced payload (+ overhead) + padding == what was received"; a one-sided
@@ -1291,5 +1292,163 @@ func r05_10(c *RC) {
 		default:
 			c.OKH(key, fn.Pos(), "a segment is returned only after len(received) == announced payload + padding (%d states explored with the equality assumed false)", ex.States)
 		}
+	}
+}
+
+// r05_11: no server credential is derived from an empty secret. The registry
+// turns a configured user into a credential with cipher.HashPassword(password,
+// name); the name is public, so a user entry without a password must never get
+// that far (a key that is a function of the name alone is no credential).
+// Every HashPassword call in the server user registry whose secret is the
+// user's Password must be unreachable when that password is empty — in the
+// function itself or, when the function is a helper, at every call of it.
+func r05_11(c *RC) {
+	p := c.P
+	var isPw func(v ssa.Value, d int) bool
+	isPw = func(v ssa.Value, d int) bool {
+		if d > 6 || v == nil {
+			return false
+		}
+		switch x := v.(type) {
+		case *ssa.Call:
+			return calleeName(x) == "GetPassword"
+		case *ssa.Convert:
+			return isPw(x.X, d+1)
+		case *ssa.ChangeType:
+			return isPw(x.X, d+1)
+		case *ssa.Phi:
+			for _, e := range x.Edges {
+				if isPw(e, d+1) {
+					return true
+				}
+			}
+			return false
+		}
+		if f := fieldOrigin(v); f != nil && f.Name() == "Password" {
+			return true
+		}
+		return false
+	}
+	pw := func(v ssa.Value) bool { return isPw(v, 0) }
+	emptyStr := func(v ssa.Value) bool {
+		k, ok := v.(*ssa.Const)
+		return ok && k.Value != nil && k.Value.Kind() == constant.String && constant.StringVal(k.Value) == ""
+	}
+	lenPw := func(v ssa.Value) bool {
+		cl, ok := v.(*ssa.Call)
+		return ok && calleeNameAny(cl) == "len" && len(cl.Common().Args) == 1 && pw(cl.Common().Args[0])
+	}
+	atom := func(cond ssa.Value) (string, int, bool) {
+		v, neg := condAtom(cond)
+		ti := 0
+		if neg {
+			ti = 1
+		}
+		switch {
+		case cmpForm(v, token.EQL, pw, emptyStr), cmpForm(v, token.EQL, lenPw, isZero), cmpForm(v, token.LEQ, lenPw, isZero):
+			return "password-empty", ti, true
+		case cmpForm(v, token.NEQ, pw, emptyStr), cmpForm(v, token.NEQ, lenPw, isZero), cmpForm(v, token.GTR, lenPw, isZero):
+			return "password-empty", 1 - ti, true
+		}
+		return "", 0, false
+	}
+	reachableEmpty := func(fn *ssa.Function, target ssa.Instruction) (bool, bool, int) {
+		ex := &Explorer{Fn: fn, Atom: atom, Assume: map[string]bool{"password-empty": true}}
+		hit := ex.Reach(nil, func(in ssa.Instruction) bool { return in == target })
+		return hit != nil, ex.Over, ex.States
+	}
+	// testedBefore: the caller tests the password for emptiness somewhere
+	// that can reach the call (a compound guard such as "no hash && no
+	// password => skip" is not path-correlated with the helper's own early
+	// return for hashed entries, so it is accepted as is rather than explored).
+	testedBefore := func(fn *ssa.Function, site ssa.Instruction) bool {
+		found := false
+		for _, b := range fn.Blocks {
+			if len(b.Instrs) == 0 {
+				continue
+			}
+			iff, ok := b.Instrs[len(b.Instrs)-1].(*ssa.If)
+			if !ok {
+				continue
+			}
+			if _, _, ok := atom(iff.Cond); !ok {
+				continue
+			}
+			seen := map[*ssa.BasicBlock]bool{}
+			var walk func(x *ssa.BasicBlock)
+			walk = func(x *ssa.BasicBlock) {
+				if seen[x] || found {
+					return
+				}
+				seen[x] = true
+				if x == site.Block() {
+					found = true
+					return
+				}
+				for _, s := range x.Succs {
+					walk(s)
+				}
+			}
+			for _, s := range b.Succs {
+				walk(s)
+			}
+		}
+		return found
+	}
+	pkgOf := func(fn *ssa.Function) string {
+		for fn != nil && fn.Pkg == nil {
+			fn = fn.Parent()
+		}
+		if fn == nil || fn.Pkg == nil {
+			return ""
+		}
+		return fn.Pkg.Pkg.Path()
+	}
+	n := 0
+	for _, s := range p.CallsTo("MOD/pkg/cipher.HashPassword") {
+		if !strings.HasSuffix(pkgOf(s.Fn), "pkg/protocol/serveruser") {
+			continue
+		}
+		call := s.Instr.(ssa.CallInstruction)
+		args := call.Common().Args
+		if len(args) == 0 {
+			continue
+		}
+		n++
+		key := "nonempty-secret@" + ownerName(p, s.Fn)
+		if n > 1 {
+			key += "#" + fmtInt(n)
+		}
+		if !pw(args[0]) {
+			c.Undecided(key, s.Pos(), "the secret hashed into a server credential is not the user's Password (%s): its emptiness test could not be located", fmtT(args[0]))
+			continue
+		}
+		hit, over, states := reachableEmpty(s.Fn, s.Instr)
+		if over {
+			c.Undecided(key, s.Pos(), "exploration budget exceeded")
+			continue
+		}
+		if !hit {
+			c.OKH(key, s.Pos(), "HashPassword(user password, name) is unreachable in %s when the password is empty (%d states explored with the emptiness test assumed true)", s.Fn.Name(), states)
+			continue
+		}
+		// the test may sit in the callers of a helper
+		callers := p.CallsToFn(s.Fn)
+		bad := ""
+		for _, cs := range callers {
+			h, o, _ := reachableEmpty(cs.Fn, cs.Instr)
+			if (h || o) && !testedBefore(cs.Fn, cs.Instr) {
+				bad = cs.Fn.Name()
+				break
+			}
+		}
+		if len(callers) > 0 && bad == "" {
+			c.OKH(key, s.Pos(), "%s is called only where the user's password was tested non-empty (%d call sites)", s.Fn.Name(), len(callers))
+			continue
+		}
+		c.Bad(key, s.Pos(), "%s derives a credential with HashPassword from a user entry whose password is empty (no emptiness test on that path%s): the key is then a function of the public user name alone, and a party that knows only the name authenticates, gets a session and is answered", s.Fn.Name(), map[bool]string{true: ", nor in caller " + bad, false: ""}[bad != ""])
+	}
+	if n == 0 {
+		c.Anchor("cipher.HashPassword call in pkg/protocol/serveruser")
 	}
 }
